@@ -207,6 +207,37 @@ func c08(c *wk.Ctx) {
 		}
 		idx++
 	}
+	// ---- C2. frames of several MiB (file parts, big results), then small ones behind them
+	bigShapes := [][]int{{4<<20 + 4, 8}, {5 << 20, 0, 4}, {8<<20 - 4, 4}}
+	if !c.Quick() {
+		bigShapes = append(bigShapes, []int{12<<20 + 8, 4}, []int{16<<20 - 8, 8, 0}, []int{4 << 20, 4<<20 + 4, 4})
+	}
+	for mi := range c08Modes {
+		for si, shape := range bigShapes {
+			if c.Mine(idx) {
+				r := c.Rand(idx)
+				stream, msgs := c08stream(c08Modes[mi].name, shape, r)
+				var segs []int
+				kind := []string{"whole", "random"}[(mi+si)%2]
+				if kind == "whole" {
+					segs = []int{len(stream)}
+				} else {
+					for rem := len(stream); rem > 0; {
+						sg := 1 + r.Intn(1<<uint(4+r.Intn(18)))
+						if sg > rem {
+							sg = rem
+						}
+						segs = append(segs, sg)
+						rem -= sg
+					}
+				}
+				c.Begin(idx, fmt.Sprintf("read big %s shape=%v segs=%s", c08Modes[mi].name, shape, kind))
+				c08read(c, idx, mi, stream, msgs, segs, kind)
+				c.Distinct("big", mi, fmt.Sprint(shape), kind)
+			}
+			idx++
+		}
+	}
 	// ---- D. announcements not recognised
 	for _, bad := range [][]byte{{0xee}, {0xee, 0xee, 0xee, 0xef}, {0xdd, 0xdd, 0xdd, 0xdd}, {0x00}, {0xee, 0xef, 0xee, 0xee}} {
 		if c.Mine(idx) {
@@ -420,6 +451,16 @@ func c08tcpCase(c *wk.Ctx, idx int, r *rand.Rand, k int) {
 	if k < 8 {
 		items[0] = c08item{code: codes[k]}
 	}
+	// stretched in time: the peer falls silent between frames, each time for less than the read timeout (and the
+	// silences add up to more than it). Margins are wide (>= 1.1 s below the timeout) so that load cannot fake a verdict.
+	timeout := 20 * time.Second
+	pauseBefore := map[int]time.Duration{}
+	if k%16 == 9 {
+		timeout = 4 * time.Second
+		items = []c08item{{body: rbytes(r, 8), msgID: 5}, {body: rbytes(r, 40), msgID: 9}, {body: rbytes(r, 4), msgID: 13}}
+	}
+	paused := k%16 == 9
+	var frameLens []int
 	var stream []byte
 	for _, it := range items {
 		var payload []byte
@@ -431,6 +472,7 @@ func c08tcpCase(c *wk.Ctx, idx int, r *rand.Rand, k int) {
 		}
 		f, _ := mtp.Frame("intermediate", payload)
 		stream = append(stream, f...)
+		frameLens = append(frameLens, len(f))
 	}
 	// segmentation
 	var segs []int
@@ -457,6 +499,10 @@ func c08tcpCase(c *wk.Ctx, idx int, r *rand.Rand, k int) {
 		segs = append(segs, s)
 		rem -= s
 	}
+	if paused {
+		kind, segs = "paused", frameLens
+		pauseBefore[1], pauseBefore[2] = 1500*time.Millisecond, 2900*time.Millisecond
+	}
 	srvErr := make(chan error, 1)
 	gotAnn := make(chan []byte, 1)
 	go func() {
@@ -474,7 +520,10 @@ func c08tcpCase(c *wk.Ctx, idx int, r *rand.Rand, k int) {
 		}
 		gotAnn <- ann
 		off := 0
-		for _, s := range segs {
+		for si, s := range segs {
+			if d := pauseBefore[si]; d > 0 {
+				time.Sleep(d)
+			}
 			if _, err := conn.Write(stream[off : off+s]); err != nil {
 				srvErr <- err
 				return
@@ -490,7 +539,7 @@ func c08tcpCase(c *wk.Ctx, idx int, r *rand.Rand, k int) {
 	defer cancel()
 	var tr transport.Transport
 	pan, pm, st := wk.Guard(func() {
-		tr, err = transport.NewTransport(&stubInfo{key: make([]byte, 256)}, transport.TCPConnConfig{Ctx: ctx, Host: ln.Addr().String(), Timeout: 20 * time.Second}, mode.Intermediate)
+		tr, err = transport.NewTransport(&stubInfo{key: make([]byte, 256)}, transport.TCPConnConfig{Ctx: ctx, Host: ln.Addr().String(), Timeout: timeout}, mode.Intermediate)
 	})
 	if pan || err != nil {
 		c.Viol("C08", idx, "tcp/connect", fmt.Sprint(pm, err, st), nil)
